@@ -97,11 +97,13 @@ pub mod ifa {
     pub trait Ifa {
         type Error: From<StdError>;
 
-        #[sv::msg(exec)]
-        fn ia_one(&self, ctx: ExecCtx, a: u32, b: u32) -> Result<Response, Self::Error>;
-
+        // declared in NON-alphabetical order on purpose: the published name list must come out sorted
+        // whatever the declaration order (the overlap check relies on it)
         #[sv::msg(exec)]
         fn ia_two(&self, ctx: ExecCtx, a: u32, b: u32) -> Result<Response, Self::Error>;
+
+        #[sv::msg(exec)]
+        fn ia_one(&self, ctx: ExecCtx, a: u32, b: u32) -> Result<Response, Self::Error>;
 
         #[sv::msg(query)]
         fn ia_q(&self, ctx: QueryCtx, k: u8) -> Result<Digit, Self::Error>;
@@ -124,11 +126,12 @@ pub mod ifb {
         #[sv::msg(exec)]
         fn ib_x(&self, ctx: ExecCtx, flag: bool) -> Result<Response, Self::Error>;
 
-        #[sv::msg(query)]
-        fn ib_q22(&self, ctx: QueryCtx) -> Result<Digit, Self::Error>;
-
+        // non-alphabetical on purpose (see ifa)
         #[sv::msg(query)]
         fn tick(&self, ctx: QueryCtx, n: u64) -> Result<Digit, Self::Error>;
+
+        #[sv::msg(query)]
+        fn ib_q22(&self, ctx: QueryCtx) -> Result<Digit, Self::Error>;
 
         #[sv::msg(sudo)]
         fn ib_s(&self, ctx: SudoCtx, n: u64) -> Result<Response, Self::Error>;
